@@ -185,7 +185,7 @@ def eq(a, b):
 
 def blanks(n):
     if is_sym(n):
-        return T.BLANKS(n)
+        return blanks_term(n)
     return [(" ", ())] * max(n, 0)
 
 
@@ -213,3 +213,36 @@ def py_bound(i, n, default):
     if i < 0:
         return max(0, i + n)
     return min(i, n)
+
+
+_BLANK_TERMS = []
+
+
+def blanks_term(n):
+    """BLANKS(n) with its ground lemmas: length, and splitting against every other BLANKS term of the path"""
+    n = n if is_sym(n) else z3.IntVal(n)
+    b = T.BLANKS(n)
+    PENDING.append(z3.Length(b) == z3.If(n > 0, n, 0))
+    for m in list(_BLANK_TERMS):
+        if m.eq(n):
+            continue
+        for (x, y) in ((m, n), (n, m)):
+            d = T.BLANKS(y - x)
+            PENDING.append(z3.Implies(z3.And(x >= 0, x <= y), z3.And(T.BLANKS(y) == z3.Concat(T.BLANKS(x), d),
+                                                                      z3.Length(d) == y - x)))
+    if not any(m.eq(n) for m in _BLANK_TERMS):
+        _BLANK_TERMS.append(n)
+        if len(_BLANK_TERMS) > 12:
+            del _BLANK_TERMS[0]
+    return b
+
+
+def reset_blanks():
+    del _BLANK_TERMS[:]
+
+
+def padto(X, n):
+    """X padded on the right with unformatted blanks to length n (X itself if already longer)"""
+    if is_sym(X) or is_sym(n):
+        return z3.Concat(X, blanks_term(n - z3.Length(X)))
+    return list(X) + [(" ", ())] * max(0, n - len(X))
